@@ -50,6 +50,7 @@ type vProc struct {
 
 type vConc struct {
 	h     *vHarness
+	name  func(l interface{}) string // lock naming; nil: the pool's locks (lockName)
 	mu    sync.Mutex
 	byGid map[string]*vProc
 	procs []*vProc
@@ -84,6 +85,13 @@ func (c *vConc) lockName(l interface{}) string {
 	return fmt.Sprintf("x%p", l)
 }
 
+func (c *vConc) nameOf(l interface{}) string {
+	if c.name != nil {
+		return c.name(l)
+	}
+	return c.lockName(l)
+}
+
 func (c *vConc) procOfCurrent() *vProc {
 	gid := vCurGID()
 	c.mu.Lock()
@@ -97,7 +105,7 @@ func (c *vConc) onLock(site string, l interface{}, kind string) {
 	if p == nil {
 		return
 	}
-	p.lks = append(p.lks, vLk{A: "acq", G: site, L: c.lockName(l), K: kind})
+	p.lks = append(p.lks, vLk{A: "acq", G: site, L: c.nameOf(l), K: kind})
 	if atomic.LoadInt32(&p.freeRun) != 0 {
 		return
 	}
@@ -111,7 +119,7 @@ func (c *vConc) onUnlock(site string, l interface{}, kind string) {
 	if p == nil {
 		return
 	}
-	p.lks = append(p.lks, vLk{A: "rel", G: site, L: c.lockName(l), K: kind})
+	p.lks = append(p.lks, vLk{A: "rel", G: site, L: c.nameOf(l), K: kind})
 	if atomic.LoadInt32(&p.freeRun) != 0 {
 		return
 	}
@@ -211,6 +219,80 @@ func (c *vConc) step(p *vProc) {
 	c.refresh()
 }
 
+// run installs the gates, executes the schedule and then lets what is left run to completion one gate at a time;
+// it reports whether operations stayed parked on mutexes with nobody at a gate.
+func (c *vConc) run(sched []int) bool {
+	atomic.StoreInt32(&vConcActive, 1)
+	verifLockFn, verifUnlockFn = c.onLock, c.onUnlock
+	defer func() {
+		verifLockFn, verifUnlockFn = nil, nil
+		atomic.StoreInt32(&vConcActive, 0)
+	}()
+	// the schedule
+	for _, k := range sched {
+		if k < 1 || k > len(c.procs) {
+			continue
+		}
+		p := c.procs[k-1]
+		if p.fn == nil {
+			continue
+		}
+		if p.state == "" || p.state == "gate" {
+			c.step(p)
+		} else {
+			c.drift++
+		}
+	}
+	// run what is left to completion, still one gate at a time
+	hung := false
+	idle := time.Time{}
+	for {
+		c.refresh()
+		progress, left := false, 0
+		for _, p := range c.procs {
+			if p.fn == nil || p.state == "done" {
+				continue
+			}
+			left++
+			if p.state == "" || p.state == "gate" {
+				c.step(p)
+				progress = true
+			}
+		}
+		if left == 0 {
+			break
+		}
+		if progress {
+			idle = time.Time{}
+			continue
+		}
+		// nobody is at a gate: a deadlock only if every remaining operation stays parked on a mutex (a goroutine that was
+		// woken but has not been given the CPU yet is runnable, not parked)
+		allParked := true
+		for _, p := range c.procs {
+			if p.fn == nil || p.state == "done" {
+				continue
+			}
+			if st, _ := vWaitReason(p.run.gid); !vIsParked(st) {
+				allParked = false
+			}
+		}
+		if idle.IsZero() || !allParked {
+			idle = time.Now()
+		}
+		if time.Since(idle) > 600*time.Millisecond {
+			for _, p := range c.procs {
+				if p.fn != nil && p.state == "lockwait" {
+					hung = true
+				}
+			}
+			break
+		}
+		time.Sleep(time.Millisecond)
+	}
+	return hung
+}
+
 func (h *vHarness) concFn(st vStep, ev *vEvent) (func() vRes, bool) {
 	switch st.Op {
 	case "state":
@@ -301,74 +383,7 @@ func (h *vHarness) execConc(i int, st vStep, ev *vEvent) {
 		p.fn, p.ev = fn, sub
 		c.procs = append(c.procs, p)
 	}
-	atomic.StoreInt32(&vConcActive, 1)
-	verifLockFn, verifUnlockFn = c.onLock, c.onUnlock
-	defer func() {
-		verifLockFn, verifUnlockFn = nil, nil
-		atomic.StoreInt32(&vConcActive, 0)
-	}()
-	// the schedule
-	for _, k := range st.Sched {
-		if k < 1 || k > len(c.procs) {
-			continue
-		}
-		p := c.procs[k-1]
-		if p.fn == nil {
-			continue
-		}
-		if p.state == "" || p.state == "gate" {
-			c.step(p)
-		} else {
-			c.drift++
-		}
-	}
-	// run what is left to completion, still one gate at a time
-	hung := false
-	idle := time.Time{}
-	for {
-		c.refresh()
-		progress, left := false, 0
-		for _, p := range c.procs {
-			if p.fn == nil || p.state == "done" {
-				continue
-			}
-			left++
-			if p.state == "" || p.state == "gate" {
-				c.step(p)
-				progress = true
-			}
-		}
-		if left == 0 {
-			break
-		}
-		if progress {
-			idle = time.Time{}
-			continue
-		}
-		// nobody is at a gate: a deadlock only if every remaining operation stays parked on a mutex (a goroutine that was
-		// woken but has not been given the CPU yet is runnable, not parked)
-		allParked := true
-		for _, p := range c.procs {
-			if p.fn == nil || p.state == "done" {
-				continue
-			}
-			if st, _ := vWaitReason(p.run.gid); !vIsParked(st) {
-				allParked = false
-			}
-		}
-		if idle.IsZero() || !allParked {
-			idle = time.Now()
-		}
-		if time.Since(idle) > 600*time.Millisecond {
-			for _, p := range c.procs {
-				if p.fn != nil && p.state == "lockwait" {
-					hung = true
-				}
-			}
-			break
-		}
-		time.Sleep(time.Millisecond)
-	}
+	hung := c.run(st.Sched)
 	c.refresh()
 	// ClientConn calls go to the operation whose goroutine made them
 	for _, e := range h.fcc.take() {
